@@ -89,6 +89,9 @@ STATEMENTS = {
     "mixed": ["x{i} = PrivVal({a}) * PubVal({b})", "PrivVal({a} + 5).assert_ne(2)", "y{i} = PrivVal({a}) < PubVal({b} + 7)",
               "PrivVal(12).assert_nonzero()", "z{i} = PrivVal({a} * 6) / PrivVal(3)", "w{i} = PrivVal({a}).to_bits()",
               "v{i} = PrivVal({a}) != PrivVal({b})", "PubVal({a}).assert_ne(PrivVal({b}))"],
+    # the output of a sub-circuit call (qaptools: a separate function context, tied to its caller by blocks; elsewhere a plain
+    # function) feeds the next product: what reaches the backend between the first statement and the exit hook is a composition
+    "calls": ["x{i} = _sq(PrivVal({a})) * PubVal({b})", "y{i} = _sq(_sq(PrivVal({a}))) + PrivVal({b}) * PrivVal({a})"],
 }
 
 
@@ -125,6 +128,7 @@ def script(mode, k, n, autoprove, flavour="mul", chdir=False, operation=None, th
          "def _done(k=1):",
          "    open('executed', 'a').write('s' * k)",
          "    open('counts', 'w').write(json.dumps(_cnt))",
+         "_sq = __import__('pysnark.qaptools.backend', fromlist=['subqap']).subqap('sq')(lambda t: t * t) if rt.backend_name == 'qaptools' else (lambda t: t * t)" if flavour == "calls" else "pass",
          "rt.autoprove = %s" % (False if autoprove == "off-then-on" else autoprove),
          # the libsnark examples set runtime.operation ("keygen"/"prove"/"verify"); other backends have no use for it
          "rt.operation = %r" % operation if operation is not None else "pass",
@@ -262,6 +266,13 @@ def run_case(case, tmp):
             if not exists("pysnark_eqs_main") or not exists("pysnark_schedule"):
                 return "%s: proving step ran but wrote no per-function equation file / schedule" % tag, "incomplete-artefact"
             eqs = qapfiles.parse_eqs(rd("pysnark_eqs_main").decode())
+            if flavour == "calls":
+                # several function contexts: every per-function file is well-formed, and the complete equation file holds the
+                # product equations of all of them
+                for f_ in os.listdir(base):
+                    if f_.startswith("pysnark_eqs_"):
+                        qapfiles.parse_eqs(rd(f_).decode())
+                eqs = qapfiles.parse_eqs(rd("pysnark_eqs").decode())
             ncons = len([e for e in eqs if e[0] == "eq" and e[1] and e[2]])
             if ncons != cnt["cons_ab"]:
                 return "%s: pysnark_eqs_main holds %d product equations, the executed statements traced %d" % (tag, ncons, cnt["cons_ab"]), "incomplete-artefact"
@@ -338,6 +349,8 @@ def run(ctx):
                 cases.append({"mode": mode, "k": k, "n": n, "backend": backend, "autoprove": ap, "operation": ["prove", "keygen", "verify"][(k + len(mode)) % 3]})
             if k in (0, n) and ap:
                 cases.append({"mode": mode, "k": k, "n": n, "backend": backend, "autoprove": ap, "thread_import": True})
+            if k in (0, n) and backend == "qaptools":
+                cases.append({"mode": mode, "k": k, "n": n, "backend": backend, "autoprove": ap, "flavour": "calls"})
             if k in (0, n) and ap and MODES[mode][1] != "sigint":
                 # under -i CPython does not act on SystemExit: it hands it to sys.excepthook like any exception and opens the
                 # prompt, so exit requests are outside the domain there; normal ends and real exceptions are in it
